@@ -1,4 +1,558 @@
-(** C02 — lemmas. *)
+(** C02 — lemmas.
+
+    The automaton instantiated with the GENERATED tables has finitely many
+    reachable (stream, connection) states.  [reach] enumerates them, [reach_closed]
+    shows the enumeration is closed under every input (so it is an inductive
+    invariant containing the initial states), and every property below is a
+    boolean check over [reach] x [all_inputs] lifted to all input sequences by
+    induction.  [redir] (the configured redirect status) stays symbolic. *)
 From Coq Require Import List NArith Bool Arith Lia.
 From SV Require Import C02.Model C02.Gen.
 Import ListNotations.
+
+Definition st : Type := (stream * conn)%type.
+
+Definition sstate_eqb (a b : sstate) : bool :=
+  match a, b with
+  | SIdle, SIdle | SLink, SLink | SLinked, SLinked | SUnlinked, SUnlinked | SRecycle, SRecycle => true
+  | _, _ => false
+  end.
+Definition phase_eqb (a b : phase) : bool :=
+  match a, b with
+  | PStatusLine, PStatusLine | PHeaders, PHeaders | PCookies, PCookies | PBody, PBody
+  | PChunks, PChunks | PTrailers, PTrailers | PTerminated, PTerminated | PError, PError => true
+  | _, _ => false
+  end.
+Definition origin_eqb (a b : origin) : bool :=
+  match a, b with
+  | ONone, ONone | OBackend, OBackend | ODefault, ODefault | OForced, OForced => true
+  | _, _ => false
+  end.
+Lemma sstate_eqb_eq a b : sstate_eqb a b = true -> a = b.
+Proof. destruct a, b; cbn; intros H; (reflexivity || discriminate). Qed.
+Lemma phase_eqb_eq a b : phase_eqb a b = true -> a = b.
+Proof. destruct a, b; cbn; intros H; (reflexivity || discriminate). Qed.
+Lemma origin_eqb_eq a b : origin_eqb a b = true -> a = b.
+Proof. destruct a, b; cbn; intros H; (reflexivity || discriminate). Qed.
+
+(** lazy conjunction: the VM is call-by-value, [&&] would evaluate every field test *)
+Notation "a &&&& b" := (if a then b else false) (at level 41, right associativity).
+
+Definition stream_eqb (a b : stream) : bool :=
+  Bool.eqb (s_pending a) (s_pending b) &&&& Bool.eqb (s_bcons a) (s_bcons b)
+  &&&& phase_eqb (s_phase a) (s_phase b) &&&& sstate_eqb (s_state a) (s_state b)
+  &&&& Bool.eqb (s_fcons a) (s_fcons b) &&&& Nat.eqb (s_attempts a) (s_attempts b)
+  &&&& Bool.eqb (s_ka a) (s_ka b) &&&& origin_eqb (s_origin a) (s_origin b)
+  &&&& Bool.eqb (s_done a) (s_done b) &&&& Bool.eqb (s_clean a) (s_clean b).
+Definition conn_eqb (a b : conn) : bool :=
+  Bool.eqb (c_int_w a) (c_int_w b) &&&& Bool.eqb (c_ev_w a) (c_ev_w b)
+  &&&& Bool.eqb (c_ftimer a) (c_ftimer b) &&&& Bool.eqb (c_btimer a) (c_btimer b)
+  &&&& Bool.eqb (c_h2 a) (c_h2 b) &&&& Bool.eqb (c_closed a) (c_closed b).
+Definition st_eqb (a b : st) : bool := conn_eqb (snd a) (snd b) &&&& stream_eqb (fst a) (fst b).
+
+Ltac split_ifs H :=
+  repeat match type of H with
+         | (if ?c then _ else false) = true =>
+           let E := fresh "E" in destruct c eqn:E; [ | discriminate H ]
+         end.
+Ltac to_eqs :=
+  repeat match goal with
+         | E : Bool.eqb _ _ = true |- _ => apply Bool.eqb_prop in E
+         | E : Nat.eqb _ _ = true |- _ => apply Nat.eqb_eq in E
+         | E : sstate_eqb _ _ = true |- _ => apply sstate_eqb_eq in E
+         | E : phase_eqb _ _ = true |- _ => apply phase_eqb_eq in E
+         | E : origin_eqb _ _ = true |- _ => apply origin_eqb_eq in E
+         end.
+
+Lemma stream_eqb_eq a b : stream_eqb a b = true -> a = b.
+Proof.
+  destruct a, b; unfold stream_eqb; cbn.
+  intros H. split_ifs H. to_eqs. subst; reflexivity.
+Qed.
+Lemma conn_eqb_eq a b : conn_eqb a b = true -> a = b.
+Proof.
+  destruct a, b; unfold conn_eqb; cbn.
+  intros H. split_ifs H. to_eqs. subst; reflexivity.
+Qed.
+Lemma st_eqb_eq a b : st_eqb a b = true -> a = b.
+Proof.
+  destruct a as [sa ca], b as [sb cb]; unfold st_eqb; cbn [fst snd]; intros H.
+  destruct (conn_eqb ca cb) eqn:E1; [ | discriminate H ].
+  apply stream_eqb_eq in H; apply conn_eqb_eq in E1; subst; reflexivity.
+Qed.
+
+Definition mem (x : st) (l : list st) : bool := existsb (st_eqb x) l.
+Lemma mem_In x l : mem x l = true -> In x l.
+Proof.
+  unfold mem; intros H. apply existsb_exists in H as [y [Hy E]].
+  apply st_eqb_eq in E; subst; exact Hy.
+Qed.
+
+Definition all_causes : list cause :=
+  [KMaxRetries; KMaxSessionsMemory; KMaxBuffers; KNoBackendForCluster; KBackendMio; KBackendStatus;
+   KBackendFailures; KHostParse; KInvalidCharsAfterHost; KNoClusterFound; KUnauthorized; KSniMismatch;
+   KHttpsRedirect; KNoMethod; KNoHost; KNoPath; KNotFound; KTooManyPerIp].
+
+Definition all_inputs : list input :=
+  [IReqHead; IConnect None] ++ map (fun k => IConnect (Some k)) all_causes ++
+  [IReqSent; IBackPartial; IBackHead; IBackEnd; IBackNoKeepAlive; IBackClose;
+   IFrontWrite true; IFrontWrite false; IFrontTimeout; IBackTimeout; IClientClose].
+
+Lemma all_inputs_complete : forall i, In i all_inputs.
+Proof.
+  intros i; unfold all_inputs, all_causes; cbn.
+  destruct i as [ | [k|] | | | | | | | [|] | | | ]; try destruct k;
+    repeat (try (left; reflexivity); right).
+Qed.
+
+Section WithRedirect.
+Variable redir : option N.
+
+Definition T := gen_tables.
+Definition nxt (x : st) (i : input) : st := fst (step T redir x i).
+Definition evs (x : st) (i : input) : list ev := snd (step T redir x i).
+
+Definition succs (x : st) : list st := map (nxt x) all_inputs.
+
+Fixpoint add_new (ys seen acc : list st) : list st * list st :=
+  match ys with
+  | [] => (seen, acc)
+  | y :: r => if mem y seen then add_new r seen acc else add_new r (y :: seen) (y :: acc)
+  end.
+
+Fixpoint explore (fuel : nat) (seen frontier : list st) : list st :=
+  match fuel with
+  | O => seen
+  | S f =>
+    match frontier with
+    | [] => seen
+    | _ =>
+      let '(seen', new) := add_new (flat_map succs frontier) seen [] in
+      explore f seen' new
+    end
+  end.
+
+Definition inits : list st := [(fresh, init_conn false); (fresh, init_conn true)].
+Definition reach : list st := explore 200 inits inits.
+
+Definition closed_b (R : list st) : bool :=
+  forallb (fun x => forallb (fun i => mem (nxt x i) R) all_inputs) R.
+
+Definition check_all (R : list st) (p : st -> input -> bool) : bool :=
+  forallb (fun x => forallb (p x) all_inputs) R.
+
+Lemma check_all_spec R p :
+  check_all R p = true -> forall x i, In x R -> p x i = true.
+Proof.
+  unfold check_all; intros H x i Hx.
+  rewrite forallb_forall in H. specialize (H x Hx).
+  rewrite forallb_forall in H. apply H, all_inputs_complete.
+Qed.
+
+(** ** The event checker: one verdict per request, no default answer once
+    bytes of the backend's response are on the wire. *)
+Record mon := mkM { m_done : bool; m_started : bool }.
+
+Definition mon_step (m : mon) (e : ev) : option mon :=
+  match e with
+  | EvRecycle => Some (mkM false false)
+  | EvRelayStart => if m_done m || m_started m then None else Some (mkM false true)
+  | EvRelayEnd => if m_done m then None else Some (mkM true (m_started m))
+  | EvDefault _ => if m_done m || m_started m then None else Some (mkM true false)
+  | EvAbort _ => if m_done m then None else Some (mkM true (m_started m))
+  | _ => Some m
+  end.
+
+Fixpoint mon_run (m : mon) (l : list ev) : option mon :=
+  match l with
+  | [] => Some m
+  | e :: r => match mon_step m e with Some m' => mon_run m' r | None => None end
+  end.
+
+Lemma mon_run_app m l1 l2 :
+  mon_run m (l1 ++ l2) = match mon_run m l1 with Some m' => mon_run m' l2 | None => None end.
+Proof.
+  revert m; induction l1 as [|e l1 IH]; intros m; cbn; [reflexivity|].
+  destruct (mon_step m e); [apply IH | reflexivity].
+Qed.
+
+(** monitor state that corresponds to a model state (ghost fields) *)
+Definition mon_of (x : st) : mon :=
+  let s := fst x in
+  mkM (s_done s) (match s_origin s with OBackend => s_bcons s | _ => false end).
+
+(** agreement of the monitor with the ghost fields ([started] is irrelevant once done) *)
+Definition mon_agree (a b : mon) : bool :=
+  Bool.eqb (m_done a) (m_done b) && (m_done a || Bool.eqb (m_started a) (m_started b)).
+
+Definition p_monitor (x : st) (i : input) : bool :=
+  match mon_run (mon_of x) (evs x i) with
+  | Some m => mon_agree m (mon_of (nxt x i))
+  | None => false
+  end.
+
+(** ** Other local properties (each is checked on every reachable state and input) *)
+
+Definition has_ev (p : ev -> bool) (l : list ev) : bool := existsb p l.
+Definition is_relay_end (e : ev) := match e with EvRelayEnd => true | _ => false end.
+Definition is_abort (e : ev) := match e with EvAbort _ => true | _ => false end.
+Definition is_default (e : ev) := match e with EvDefault _ => true | _ => false end.
+
+(** a relayed response is declared complete only if the backend ended it cleanly *)
+Definition p_relay_clean (x : st) (i : input) : bool :=
+  implb (has_ev is_relay_end (evs x i)) (s_clean (fst x)).
+
+(** the clean flag is only ever raised by a clean end of the backend's message
+    or by EOF on a close-delimited body *)
+Definition p_clean_source (x : st) (i : input) : bool :=
+  implb (s_clean (fst (nxt x i)) && negb (s_clean (fst x)))
+        (match i with
+         | IBackEnd => true
+         | IBackClose => negb (s_ka (fst x))
+         | _ => false
+         end).
+
+(** backend lost mid-body under keep-alive framing: abort, never "terminated" *)
+Definition p_truncated (x : st) (i : input) : bool :=
+  let s := fst x in
+  match i, s_state s, s_phase s with
+  | IBackClose, SLinked, (PBody | PChunks | PTrailers) =>
+    implb (s_ka s && negb (c_closed (snd x)))
+          (has_ev is_abort (evs x i) && negb (has_ev is_relay_end (evs x i))
+           && match s_phase (fst (nxt x i)) with PError => true | _ => false end)
+  | _, _, _ => true
+  end.
+
+(** a live session always has its frontend timer armed *)
+Definition p_timer (x : st) (i : input) : bool :=
+  let c' := snd (nxt x i) in c_closed c' || c_ftimer c'.
+
+(** a request that is in flight and has no verdict yet gets one (or a complete
+    answer is already queued for a slow client) as soon as the frontend timer fires *)
+Definition settled (x : st) : bool :=
+  let s := fst x in let c := snd x in
+  c_closed c || s_done s || negb (in_flight s)
+  || (s_pending s && (is_terminated (s_phase s) || is_error (s_phase s))).
+
+Definition p_front_timeout (x : st) (i : input) : bool :=
+  match i with
+  | IFrontTimeout => settled (nxt x i)
+  | _ => true
+  end.
+
+(** losing the backend settles the request, or re-queues it within the retry budget *)
+Definition p_back_close (x : st) (i : input) : bool :=
+  let s := fst x in
+  match i, s_state s with
+  | (IBackClose | IBackTimeout), SLinked =>
+    implb (negb (c_closed (snd x)) && match i with IBackTimeout => c_btimer (snd x) | _ => true end)
+          (settled (nxt x i)
+           || match s_state (fst (nxt x i)) with SLink => true | _ => false end)
+  | _, _ => true
+  end.
+
+(** a queued link is always resolved by the next connect: linked or answered *)
+Definition p_connect (x : st) (i : input) : bool :=
+  match i, s_state (fst x) with
+  | IConnect _, SLink =>
+    implb (negb (c_closed (snd x)))
+          (match s_state (fst (nxt x i)) with
+           | SLinked => true
+           | _ => s_done (fst (nxt x i)) && has_ev is_default (evs x i)
+           end)
+  | _, _ => true
+  end.
+
+Definition p_budget (x : st) (i : input) : bool :=
+  (s_attempts (fst (nxt x i)) <=? t_retries T)%nat.
+
+(** whatever is queued and sendable has WRITABLE armed (answer helpers, end arms, parsers) *)
+Definition p_armed (x : st) (i : input) : bool :=
+  let s := fst (nxt x i) in let c := snd (nxt x i) in
+  implb (negb (c_closed c) && s_pending s && (is_main_phase (s_phase s) || is_error (s_phase s)))
+        (armed c)
+  && implb (negb (c_closed c) && is_error (s_phase s) && in_flight s) (armed c).
+
+Definition p_all (x : st) (i : input) : bool :=
+  p_monitor x i && p_relay_clean x i && p_clean_source x i && p_truncated x i && p_timer x i
+  && p_front_timeout x i && p_back_close x i && p_connect x i && p_budget x i && p_armed x i.
+
+End WithRedirect.
+
+(** ** The computed facts.  The enumeration is evaluated once ([reach0]); the
+    states do not mention [redir], which stays symbolic in the checks. *)
+
+Definition reach0 : list st := Eval vm_compute in reach None.
+
+Lemma reach_closed : forall redir, closed_b redir reach0 = true.
+Proof. intros redir. vm_cast_no_check (eq_refl true). Qed.
+
+Lemma inits_in_reach : forall x, In x inits -> In x reach0.
+Proof.
+  intros x Hx. apply mem_In.
+  destruct Hx as [<-|[<-|[]]]; vm_compute; reflexivity.
+Qed.
+
+Lemma reach_props : forall redir, check_all reach0 (p_all redir) = true.
+Proof. intros redir. vm_cast_no_check (eq_refl true). Qed.
+
+(** ** Lifting to every input sequence *)
+
+Section Lift.
+Variable redir : option N.
+
+Lemma nxt_in_reach x i : In x reach0 -> In (nxt redir x i) reach0.
+Proof.
+  intros Hx. pose proof (reach_closed redir) as H. unfold closed_b in H.
+  rewrite forallb_forall in H. specialize (H x Hx).
+  rewrite forallb_forall in H. apply mem_In, H, all_inputs_complete.
+Qed.
+
+Lemma local x i : In x reach0 -> p_all redir x i = true.
+Proof. intros Hx. exact (check_all_spec _ _ (reach_props redir) x i Hx). Qed.
+
+(** state reached after an input sequence *)
+Fixpoint run_st (x : st) (is : list input) : st :=
+  match is with
+  | [] => x
+  | i :: r => run_st (nxt redir x i) r
+  end.
+
+Lemma run_st_in_reach is : forall x, In x reach0 -> In (run_st x is) reach0.
+Proof. induction is as [|i r IH]; intros x Hx; cbn; [exact Hx | apply IH, nxt_in_reach, Hx]. Qed.
+
+Lemma run_st_app a b x : run_st x (a ++ b) = run_st (run_st x a) b.
+Proof. revert x; induction a as [|i a IH]; intros x; cbn; [reflexivity | apply IH]. Qed.
+
+Lemma run_cons x i r :
+  run T redir x (i :: r) = evs redir x i ++ run T redir (nxt redir x i) r.
+Proof.
+  unfold evs, nxt; cbn [run].
+  destruct (step T redir x i) as [[s' c'] e]; reflexivity.
+Qed.
+
+Lemma mon_agree_step a b e :
+  mon_agree a b = true ->
+  match mon_step a e, mon_step b e with
+  | Some a', Some b' => mon_agree a' b' = true
+  | None, None => True
+  | _, _ => False
+  end.
+Proof.
+  destruct a as [[|] [|]], b as [[|] [|]], e; cbn; intros H; try discriminate H; auto.
+Qed.
+
+Lemma mon_agree_run l : forall a b,
+  mon_agree a b = true ->
+  match mon_run a l, mon_run b l with
+  | Some a', Some b' => mon_agree a' b' = true
+  | None, None => True
+  | _, _ => False
+  end.
+Proof.
+  induction l as [|e l IH]; intros a b H; cbn; [exact H|].
+  pose proof (mon_agree_step a b e H) as Hs.
+  destruct (mon_step a e) as [a'|], (mon_step b e) as [b'|]; try contradiction; [exact (IH a' b' Hs) | exact I].
+Qed.
+
+Lemma mon_agree_refl a : mon_agree a a = true.
+Proof. destruct a as [[|] [|]]; reflexivity. Qed.
+
+Lemma split_p_all x i :
+  p_all redir x i = true ->
+  p_monitor redir x i = true /\ p_relay_clean redir x i = true /\ p_clean_source redir x i = true /\
+  p_truncated redir x i = true /\ p_timer redir x i = true /\ p_front_timeout redir x i = true /\
+  p_back_close redir x i = true /\ p_connect redir x i = true /\ p_budget redir x i = true /\
+  p_armed redir x i = true.
+Proof.
+  unfold p_all; intros H.
+  repeat (apply andb_true_iff in H as [H ?]). repeat split; assumption.
+Qed.
+
+(** the monitor accepts every trace from every reachable state *)
+Lemma monitor_accepts is : forall x m,
+  In x reach0 -> mon_agree m (mon_of x) = true ->
+  mon_run m (run T redir x is) <> None.
+Proof.
+  induction is as [|i r IH]; intros x m Hx Hm; [cbn; discriminate|].
+  rewrite run_cons, mon_run_app.
+  pose proof (local x i Hx) as L. apply split_p_all in L as [L _].
+  unfold p_monitor in L.
+  pose proof (mon_agree_run (evs redir x i) m (mon_of x) Hm) as A.
+  destruct (mon_run (mon_of x) (evs redir x i)) as [m2|] eqn:E2; [|discriminate L].
+  destruct (mon_run m (evs redir x i)) as [m1|] eqn:E1; [|contradiction].
+  apply IH; [apply nxt_in_reach, Hx|].
+  (* m1 ~ m2 ~ mon_of next *)
+  destruct m1 as [[|] [|]], m2 as [[|] [|]], (mon_of (nxt redir x i)) as [[|] [|]];
+    cbn in *; try discriminate; reflexivity.
+Qed.
+
+End Lift.
+
+(** ** The property statements *)
+
+Lemma init_in_reach h2 : In (fresh, init_conn h2) reach0.
+Proof. apply inits_in_reach; destruct h2; cbn; auto. Qed.
+
+Lemma one_answer_proof :
+  forall (redir : option N) (h2 : bool) (inputs : list input),
+    mon_run (mkM false false) (run gen_tables redir (fresh, init_conn h2) inputs) <> None.
+Proof.
+  intros redir h2 inputs.
+  apply (monitor_accepts redir inputs (fresh, init_conn h2) (mkM false false) (init_in_reach h2)).
+  reflexivity.
+Qed.
+
+Lemma answered_or_requeued_proof :
+  forall (redir : option N) (h2 : bool) (history : list input),
+    let x := run_st redir (fresh, init_conn h2) history in
+    settled (nxt redir x IFrontTimeout) = true /\
+    (forall i, (i = IBackClose \/ i = IBackTimeout) ->
+               s_state (fst x) = SLinked -> c_closed (snd x) = false -> c_btimer (snd x) = true ->
+               settled (nxt redir x i) = true \/ s_state (fst (nxt redir x i)) = SLink) /\
+    (forall r, s_state (fst x) = SLink -> c_closed (snd x) = false ->
+               s_state (fst (nxt redir x (IConnect r))) = SLinked \/
+               (s_done (fst (nxt redir x (IConnect r))) = true /\
+                existsb is_default (evs redir x (IConnect r)) = true)) /\
+    (s_attempts (fst x) <= t_retries gen_tables)%nat.
+Proof.
+  intros redir h2 history x.
+  assert (Hx : In x reach0) by (apply run_st_in_reach, init_in_reach).
+  repeat split.
+  - pose proof (local redir x IFrontTimeout Hx) as L. apply split_p_all in L.
+    destruct L as (_ & _ & _ & _ & _ & L & _). exact L.
+  - intros i Hi Hs Hc Hb.
+    pose proof (local redir x i Hx) as L. apply split_p_all in L.
+    destruct L as (_ & _ & _ & _ & _ & _ & L & _).
+    unfold p_back_close in L. rewrite Hs, Hc in L.
+    destruct Hi as [-> | ->]; cbn in L; rewrite ?Hb in L; cbn in L;
+      apply orb_true_iff in L as [L|L]; auto;
+      right; destruct (s_state (fst (nxt redir x _))); (reflexivity || discriminate).
+  - intros r Hs Hc.
+    pose proof (local redir x (IConnect r) Hx) as L. apply split_p_all in L.
+    destruct L as (_ & _ & _ & _ & _ & _ & _ & L & _).
+    unfold p_connect in L. rewrite Hs, Hc in L. cbn in L.
+    destruct (s_state (fst (nxt redir x (IConnect r)))); auto;
+      right; apply andb_true_iff in L; exact L.
+  - subst x. induction history as [|i hist _] using rev_ind.
+    + cbn. apply Nat.le_0_l.
+    + rewrite run_st_app. cbn [run_st].
+      set (y := run_st redir (fresh, init_conn h2) hist).
+      assert (Hy : In y reach0) by (apply run_st_in_reach, init_in_reach).
+      pose proof (local redir y i Hy) as L. apply split_p_all in L.
+      destruct L as (_ & _ & _ & _ & _ & _ & _ & _ & L & _).
+      unfold p_budget in L. apply Nat.leb_le in L. exact L.
+Qed.
+
+Ltac by_valuation v :=
+  cbn;
+  repeat match goal with
+         | |- context [v ?c] => destruct (v c)
+         end; reflexivity.
+
+Lemma status_matches_cause_proof :
+  (forall k, t_connect gen_tables k = spec_connect k) /\
+  t_redirect_fallback gen_tables = 301%N /\
+  (forall v, teval v (t_esd gen_tables) = teval v spec_esd) /\
+  (forall s v, teval v (t_ft gen_tables s) = teval v (spec_ft s)) /\
+  (forall v, teval v (t_bt gen_tables) = teval v spec_bt) /\
+  (forall h2 a, t_end_arm gen_tables h2 a = spec_end_arm h2 a) /\
+  t_known_codes gen_tables = spec_known_codes /\
+  t_retries gen_tables = 3%nat /\ t_guard_ge gen_tables = true.
+Proof.
+  refine (conj _ (conj _ (conj _ (conj _ (conj _ (conj _ (conj _ (conj _ _)))))))).
+  - intros k; destruct k; reflexivity.
+  - reflexivity.
+  - intros v. by_valuation v.
+  - intros s v. destruct s; by_valuation v.
+  - intros v. by_valuation v.
+  - intros h2 a; destruct h2, a; reflexivity.
+  - reflexivity.
+  - reflexivity.
+  - reflexivity.
+Qed.
+
+(** documented status per cause *)
+Definition documented_status (redir : option N) (k : cause) : N :=
+  match k with
+  | KNoClusterFound => 404
+  | KUnauthorized => 401
+  | KSniMismatch => 421
+  | KTooManyPerIp => 429
+  | KHostParse | KInvalidCharsAfterHost => 400
+  | KHttpsRedirect =>
+    match redir with
+    | Some n => if existsb (N.eqb n) spec_known_codes then n else 503
+    | None => 301
+    end
+  | _ => 503
+  end%N.
+
+Lemma connect_failure_status_proof :
+  forall redir s c k,
+    s_state s = SLink -> c_closed c = false -> (s_attempts s < 3)%nat ->
+    evs redir (s, c) (IConnect (Some k)) = [EvDefault (documented_status redir k)].
+Proof.
+  intros redir s c k Hs Hc Ha.
+  destruct s as [ss att fc ph bc pe ka og dn cl], c as [h2 iw ew ft bt clo]; cbn in Hs, Hc, Ha; subst.
+  unfold evs, step; cbn.
+  destruct (Nat.leb_spec 3 att) as [H|_]; [exfalso; apply (Nat.lt_irrefl att), (Nat.lt_le_trans _ _ _ Ha H)|].
+  destruct k; try reflexivity.
+  destruct redir; reflexivity.
+Qed.
+
+Lemma no_truncated_as_complete_proof :
+  forall (redir : option N) (h2 : bool) (history : list input) (i : input),
+    let x := run_st redir (fresh, init_conn h2) history in
+    (existsb is_relay_end (evs redir x i) = true -> s_clean (fst x) = true) /\
+    (s_clean (fst (nxt redir x i)) = true -> s_clean (fst x) = false ->
+       i = IBackEnd \/ (i = IBackClose /\ s_ka (fst x) = false)) /\
+    (i = IBackClose -> s_state (fst x) = SLinked -> s_ka (fst x) = true -> c_closed (snd x) = false ->
+       (s_phase (fst x) = PBody \/ s_phase (fst x) = PChunks \/ s_phase (fst x) = PTrailers) ->
+       existsb is_abort (evs redir x i) = true /\ existsb is_relay_end (evs redir x i) = false /\
+       s_phase (fst (nxt redir x i)) = PError).
+Proof.
+  intros redir h2 history i x.
+  assert (Hx : In x reach0) by (apply run_st_in_reach, init_in_reach).
+  pose proof (local redir x i Hx) as L. apply split_p_all in L.
+  destruct L as (_ & L1 & L2 & L3 & _).
+  repeat split.
+  - intros H. unfold p_relay_clean, has_ev in L1. rewrite H in L1. exact L1.
+  - intros H1 H0. unfold p_clean_source in L2. rewrite H1, H0 in L2. cbn in L2.
+    destruct i; try discriminate L2; auto.
+    right; split; [reflexivity|]. destruct (s_ka (fst x)); [discriminate L2 | reflexivity].
+  - intros -> Hs Hk Hc Hp. unfold p_truncated in L3. rewrite Hs, Hk, Hc in L3.
+    unfold has_ev in L3.
+    destruct Hp as [Hp|[Hp|Hp]]; rewrite Hp in L3; cbn in L3;
+      apply andb_true_iff in L3 as [L3 _]; apply andb_true_iff in L3 as [L3 _]; exact L3.
+  - intros -> Hs Hk Hc Hp. unfold p_truncated in L3. rewrite Hs, Hk, Hc in L3.
+    unfold has_ev in L3.
+    destruct Hp as [Hp|[Hp|Hp]]; rewrite Hp in L3; cbn in L3;
+      apply andb_true_iff in L3 as [L3 _]; apply andb_true_iff in L3 as [_ L3];
+      apply negb_true_iff in L3; exact L3.
+  - intros -> Hs Hk Hc Hp. unfold p_truncated in L3. rewrite Hs, Hk, Hc in L3.
+    destruct Hp as [Hp|[Hp|Hp]]; rewrite Hp in L3; cbn in L3;
+      apply andb_true_iff in L3 as [_ L3];
+      destruct (s_phase (fst (nxt redir x IBackClose))); (reflexivity || discriminate).
+Qed.
+
+Lemma bounded_wait_proof :
+  forall (redir : option N) (h2 : bool) (history : list input),
+    let x := run_st redir (fresh, init_conn h2) history in
+    (c_closed (snd x) = false -> c_ftimer (snd x) = true) /\
+    (c_closed (snd x) = false -> s_pending (fst x) = true ->
+     is_main_phase (s_phase (fst x)) || is_error (s_phase (fst x)) = true -> armed (snd x) = true).
+Proof.
+  intros redir h2 history. cbv zeta.
+  induction history as [|i hist _] using rev_ind.
+  - cbn. split; [reflexivity | discriminate].
+  - rewrite run_st_app. cbn [run_st].
+    set (y := run_st redir (fresh, init_conn h2) hist).
+    assert (Hy : In y reach0) by (apply run_st_in_reach, init_in_reach).
+    pose proof (local redir y i Hy) as L. apply split_p_all in L.
+    destruct L as (_ & _ & _ & _ & L1 & _ & _ & _ & _ & L2).
+    split.
+    + intros Hc. unfold p_timer in L1. rewrite Hc in L1. exact L1.
+    + intros Hc Hp Hm. unfold p_armed in L2. rewrite Hc, Hp, Hm in L2. cbn in L2.
+      apply andb_true_iff in L2 as [L2 _]. exact L2.
+Qed.
